@@ -53,9 +53,25 @@ class GiveUp(Exception):
 
 
 class SimErr(Exception):
+    def __new__(cls, tag):
+        # a quarter of the failures of a program are of a type that derives from BaseException
+        # only (`Event.fail` accepts any BaseException; so must a failing process)
+        if cls is SimErr and sum(map(ord, str(tag))) % 4 == 0:
+            return SimAbort(tag)
+        return super().__new__(cls, tag)
+
     def __init__(self, tag):
         super().__init__(tag)
         self.tag = tag
+
+
+class SimAbort(BaseException):
+    def __init__(self, tag):
+        super().__init__(tag)
+        self.tag = tag
+
+
+SIM_ERRORS = (SimErr, SimAbort)
 
 
 def n_cases(tier):
@@ -417,7 +433,7 @@ class World:
                     yield from settle()
                 except GiveUp:
                     return 'gave-up'
-            except SimErr as err:
+            except SIM_ERRORS as err:
                 if op == 'raise':
                     raise
                 log.append((index, env.now, ('exception', err.tag)))
@@ -434,7 +450,7 @@ class World:
 def describe_outcome(kind, exc):
     if kind == 'ok':
         return ('ok', None)
-    if isinstance(exc, SimErr):
+    if isinstance(exc, SIM_ERRORS):
         return ('SimErr', exc.tag)
     return (type(exc).__name__, None)
 
@@ -483,7 +499,7 @@ def run_usim(spec, embedded=False, natives=()):
             try:
                 value = await world.events[name]
                 native_log.append((name, usim.time.now, ('value', repr(value))))
-            except SimErr as err:
+            except SIM_ERRORS as err:
                 native_log.append((name, usim.time.now, ('exception', err.tag)))
 
         async def main():
@@ -524,6 +540,14 @@ def compare(case, spec):
         stats['until_time'] += 1
     if until and 'event' in until:
         stats['until_event'] += 1
+    if (ref_outcome[0] == 'SimErr' and outcome[0] == 'AssertionError'
+            and isinstance(SimErr(ref_outcome[1]), SimAbort)):
+        # An *unhandled* failure of a type that is no Exception: the scope hosting the
+        # environment refuses to wrap it ("'Concurrent' may only be specialised by Exception
+        # subclasses", an assertion of the native layer, absent under -O) - the run does end
+        # with an error at that time, which error is outside of what the statement fixes.
+        stats['runs_ended_by_exception'] += 1
+        return violations, stats
     if outcome != ref_outcome:
         vio('run-outcome', 'env.run(until=%s) ended with %s, reference kernel: %s' % (
             until, outcome, ref_outcome))
@@ -687,7 +711,7 @@ def native_yield_family(case, rng, stats):
         log.append(('timeout', value))
         try:
             yield failing(0.5)
-        except SimErr as err:
+        except SIM_ERRORS as err:
             log.append(('coroutine-failed', err.tag))
 
     async def failing(duration):
